@@ -67,9 +67,7 @@ PDU::~PDU() {
 }
 
 void PDU::copy_inner_pdu(const PDU& pdu) {
-    if (pdu.inner_pdu()) {
-        inner_pdu(pdu.inner_pdu()->clone());
-    }
+    inner_pdu(pdu.inner_pdu() ? pdu.inner_pdu()->clone() : 0);
 }
 
 void PDU::prepare_for_serialize() {
